@@ -173,7 +173,7 @@ AMR_EXTRA = [':ARG0', ':ARG1', ':ARG2', ':op1', ':op2', ':foo', ':']
 
 
 @st.composite
-def _rt_cases(draw):
+def _rt_cases(draw, large=False):
     c = draw(st.integers(0, 9))
     if c == 0:
         spec = {'name': 'default'}
@@ -193,7 +193,7 @@ def _rt_cases(draw):
         w = R.invert(r)
         if R.inverted(w) and R.is_canonical_inversion(w):
             inv[r] = w
-    j = draw(trees.wf_trees(spec, max_nodes=6, role_pool=(fwd, inv), emptyconcept=False))
+    j = draw(trees.wf_trees(spec, max_nodes=30 if large else 6, role_pool=(fwd, inv), emptyconcept=False, wide=8 if large else 3))
     return {'k': 'rt', 'tree': j, 'model': spec, 'strip': draw(st.integers(0, 3)) == 0,
             'opts': [pick(draw, OPTS)]}
 
@@ -224,5 +224,6 @@ def _protected_cases(draw):
 def stages(tier):
     return [
         Hyp('roundtrip', _rt_cases, 4000, 150000),
+        Hyp('roundtrip-large', lambda: _rt_cases(large=True), 200, 10000),
         Hyp('protected-nodes', _protected_cases, 600, 20000),
     ]
